@@ -40,6 +40,12 @@ def gen_connected(rng, n, kind=None):
         e = [(i, j) for i in range(n) for j in range(i)]
     elif kind == "tree":
         e = [(i, rng.randrange(i)) for i in range(1, n)]
+    elif kind == "caterpillar":
+        spine = max(2, n // 2)
+        e = [(i, i + 1) for i in range(spine - 1)] + [(i, rng.randrange(spine)) for i in range(spine, n)]
+    elif kind == "lollipop":
+        c = max(3, n // 2)
+        e = [(i, j) for i in range(min(c, n)) for j in range(i)] + [(i, i - 1) for i in range(c, n)]
     elif kind == "dense":
         e = [(i, j) for i in range(n) for j in range(i)]
         rng.shuffle(e)
@@ -69,13 +75,16 @@ def relabel(rng, n, edges):
 
 def gen_graph(rng, max_n):
     r = rng.random()
-    if r < 0.06:
+    if r < 0.05:
         n = 1
-    elif r < 0.5:
+    elif r < 0.35:
         n = rng.randint(2, max(2, min(5, max_n)))
     else:
-        n = rng.randint(2, max(2, max_n))
-    return {"n": n, "edges": gen_connected(rng, n)}
+        n = rng.randint(max(2, max_n - 3), max(2, max_n))
+    kind = None
+    if n >= 7:            # larger graphs: mostly sparse (diameter >= 3), where the bounds are not trivial
+        kind = rng.choice(("tree", "tree", "tree", "path", "cycle", "gnp", "star", "caterpillar", "lollipop", None))
+    return {"n": n, "edges": gen_connected(rng, n, kind)}
 
 
 def gen_pair(rng, max_n):
